@@ -16,7 +16,7 @@ RULE = (
     "Non-trivial = at least 2 actions visited at least twice each; distinct by sequence hash."
 )
 ASSUMPTIONS = ["the one undefined case of the rule - an improvement over a reference of exactly 0.0 (division by zero) - is not generated; zero and negative references with any other observation are"]
-REQUIRED_COUNTERS = {"chosen_actions_never_executed": 500, "nan_observations": 300, "nan_reference_sequences": 50, "alpha_zero_sequences": 50, "special_seed_sequences": 80, "env_resets_between_observations": 500, "zero_reference_steps": 200, "negative_reference_steps": 200, "twins_seeded_through_setter": 100, "learn_steps": 2000, "policy_calls": 2000, "reward_calls": 2000, "improving_steps": 200, "twin_pairs": 50}
+REQUIRED_COUNTERS = {"tiny_reference_sequences": 80, "agents_replaced_by_a_pickled_or_deep_copy": 500, "agent_resets": 400, "rewards_of_other_numeric_types": 500, "chosen_actions_never_executed": 500, "nan_observations": 300, "nan_reference_sequences": 50, "alpha_zero_sequences": 50, "special_seed_sequences": 80, "env_resets_between_observations": 500, "zero_reference_steps": 200, "negative_reference_steps": 200, "twins_seeded_through_setter": 100, "learn_steps": 2000, "policy_calls": 2000, "reward_calls": 2000, "improving_steps": 200, "twin_pairs": 50}
 SHARDS = {"quick": 8, "thorough": 16}
 
 
@@ -56,7 +56,13 @@ def one_sequence(rng, out):
         c["twins_seeded_through_setter"] = c.get("twins_seeded_through_setter", 0) + 1
     env = MABCalibrationEnv(n)
     best0 = float(10.0 ** rng.uniform(-3, 3))
-    mode = str(rng.choice(["random", "improving", "flat", "adversarial", "zero_reference", "negative", "nan_reference"]))
+    mode = str(rng.choice(["random", "improving", "flat", "adversarial", "zero_reference", "negative", "nan_reference", "tiny"]))
+    if mode == "tiny":
+        # a well-converged quadratic loss, a loss expressed in small units, down to denormals: the rule is scale-free
+        best0 = float(10.0 ** rng.uniform(-320, -13))
+        if best0 == 0.0:
+            best0 = 5e-324 * 1000
+        c["tiny_reference_sequences"] = c.get("tiny_reference_sequences", 0) + 1
     if mode == "zero_reference":
         best0 = 0.0          # a perfect fit was reached: later observations cannot improve on it (losses are >= 0 here)
     elif mode == "negative":
@@ -74,7 +80,25 @@ def one_sequence(rng, out):
     def bad(msg):
         out["violations"].append({"msg": msg, "witness": dict(desc, trace=trace[-6:])})
 
+    import copy
+    import pickle
+
     for t in range(steps):
+        if t > 0 and rng.random() < 0.02:
+            # the agent is serialised / cloned in the middle of a run (a checkpoint, an A/B branch) and the COPY goes on
+            agent = pickle.loads(pickle.dumps(agent)) if rng.random() < 0.5 else copy.deepcopy(agent)  # noqa: S301
+            c["agents_replaced_by_a_pickled_or_deep_copy"] = c.get("agents_replaced_by_a_pickled_or_deep_copy", 0) + 1
+        if t > 0 and rng.random() < 0.015:
+            # reset() between two experiments: what it leaves behind is read back (the rule does not say), but it is the same for
+            # equal agents and the random stream of the agent goes on from where it was
+            agent.reset()
+            twin.reset()
+            c["agent_resets"] = c.get("agent_resets", 0) + 1
+            if [float(x) for x in agent.Q] != [float(x) for x in twin.Q] or list(agent.actions_count) != list(twin.actions_count):
+                return bad("reset() left two equal agents in different states")
+            if agent.random_state != seed:
+                return bad(f"reset() changed the agent's seed from {seed} to {agent.random_state!r}")
+            Q, cnt = [float(x) for x in agent.Q], [int(x) for x in agent.actions_count]
         q_before, n_before = [float(x) for x in agent.Q], list(agent.actions_count)
         a = agent.policy(0)
         a2 = twin.policy(0)
@@ -106,6 +130,10 @@ def one_sequence(rng, out):
             c["negative_reference_steps"] = c.get("negative_reference_steps", 0) + 1
         elif mode == "improving":
             new = ref_best * float(rng.uniform(0.3, 0.999))
+        elif mode == "tiny":
+            new = ref_best * float(rng.choice([0.25, 0.5, 0.75, 1.0, 2.0, float(rng.uniform(0.1, 1.5))]))
+            if new == 0.0:
+                new = ref_best
         elif mode == "flat":
             new = ref_best * float(rng.uniform(1.0, 3.0))
         elif mode == "adversarial":
@@ -133,8 +161,15 @@ def one_sequence(rng, out):
         if direct:
             r = float(rng.choice([-1.0, -0.25, 0.0, 1.5, float(rng.normal() * 3)]))
             c["direct_rewards"] = c.get("direct_rewards", 0) + 1
+            rt = str(rng.choice(["float", "np.float32", "int", "np.int64", "np.float64", "0-d array"]))
+            if rt != "float":
+                # a real number that is not a `float` instance (gymnasium-style environments return numpy scalars)
+                r = {"np.float32": lambda v: np.float32(v), "int": lambda v: int(round(v)), "np.int64": lambda v: np.int64(round(v)),
+                     "np.float64": lambda v: np.float64(v), "0-d array": lambda v: np.array(v)}[rt](r)
+                c["rewards_of_other_numeric_types"] = c.get("rewards_of_other_numeric_types", 0) + 1
         agent.learn(0, a, r, 0)
         twin.learn(0, a, r, 0)
+        r = float(r)
         c["learn_steps"] = c.get("learn_steps", 0) + 1
         cnt[a] += 1
         step = 1.0 / cnt[a] if alpha == -1 else alpha
